@@ -310,6 +310,7 @@ def populate(c: Ctx, n_objects=None, types=None, origin_pos=None, n_origins=None
     chans = {}
     tagn = 0
     origin_ops = []
+    indexed = {f: maybe(r, 0.4) for f in range(nfr)}
     for st in steps:
         if st[0] == 'origin':
             attrs = pick_attrs(c, 'origin', 0.4, exclude=('file_set_number', 'creation_time'))
@@ -321,11 +322,13 @@ def populate(c: Ctx, n_objects=None, types=None, origin_pos=None, n_origins=None
             origin_ops.append(c.add(op))
         elif st[0] == 'chan':
             tagn += 1
-            i = add_channel_with_data(c, rows, tagn, index=False,
+            i = add_channel_with_data(c, rows, tagn, index=(indexed[st[1]] and st[2] == 0),
                                       forbid=[c.sp['ops'][j]['name'] for j in chans.get(st[1], [])])
             chans.setdefault(st[1], []).append(i)
         elif st[0] == 'frame':
             attrs = pick_attrs(c, 'frame', 0.3, only=('description', 'encrypted'))
+            if indexed[st[1]]:
+                attrs['index_type'] = gen.gen_scalar(r, 'frame', 'index_type', 'ident', {})
             op = gen.frame_op(obj_name(c, 'frame', 0.1), chans[st[1]], lf=c.lf, **attrs)
             c.add(op)
         else:
